@@ -141,7 +141,12 @@ func RunImpl(c Case) (events []sse.Event, err error, afterErr bool) {
 }
 
 // Judge compares with the reference. It returns signature NUL message, or "".
-func Judge(c Case) string {
+func Judge(c Case) (v string) {
+	defer func() {
+		if r := recover(); r != nil {
+			v = viol("the code under test panicked", c, "panic: %v", r)
+		}
+	}()
 	want := ref.Interpret(c.Stream, ref.Mode{RetryDispatches: c.Conn})
 	got, err, afterErr := RunImpl(c)
 	entry := "Read"
